@@ -1,7 +1,8 @@
 /* the real leaf functions that tools/c2gallina.py translates, behind one line protocol (validation of the translator):
      cm_hash H | cdb_hash H | hashadd h c | unpack H4 | pack n | case_diffb Ha Hb | case_lowerb H | byte_chr H c | byte_rchr H c |
      str_chr H c | str_rchr H c | scan_ulong H | scan_8long H | fmt_ulong u | fmt_uint0 u n | fmt_str H | byte_copy H n | byte_copyr H n |
-     byte_zero H n | str_start Ha Hb | case_diffs Ha Hb | case_starts Ha Hb | ip_scan H | ip_scanbracket H | ip_fmt H4 | quote_doit H          (H = hex bytes; strings get a NUL appended) */
+     byte_zero H n | str_start Ha Hb | case_diffs Ha Hb | case_starts Ha Hb | ip_scan H | ip_scanbracket H | ip_fmt H4 | quote_doit H |
+     safeput H | fmtqfn Hdir id flagsplit          (H = hex bytes; strings get a NUL appended) */
 #include "h_common.h"
 #include "constmap.c"
 #include "cdb.h"
@@ -15,6 +16,15 @@
 #define quote h_quote_unused
 #include "quote.c"
 #undef quote
+#include "fmtqfn.h"
+#include "auto_split.h"
+/* received.c with its output captured: qmail_put/qmail_puts of safeput() and received() append to h_qq */
+static unsigned char h_qq[1 << 17]; static size_t h_qqlen;
+#include "qmail.h"
+#define qmail_put h_qmail_put
+static void h_qmail_put(struct qmail *qq, const char *s, unsigned int n) { (void) qq; memcpy(h_qq + h_qqlen, s, n); h_qqlen += n; }
+#include "received.c"
+#undef qmail_put
 static unsigned char a[1 << 16], b[1 << 16];
 int main(void) {
   static char line[1 << 18];
@@ -50,6 +60,10 @@ int main(void) {
       r = IS("ip_scan") ? ip_scan((char *) a, &ip) : ip_scanbracket((char *) a, &ip); fprintf(h_res, "%u ", r); h_puthex(ip.d, 4); fputc('\n', h_res); }
     else if (IS("ip_fmt")) { struct ip_address ip; unsigned int r; h_unhex(tok[1], ip.d); r = ip_fmt((char *) a, &ip); fprintf(h_res, "%u ", r); h_puthex(a, r); fputc('\n', h_res); }
     else if (IS("quote_doit")) { static stralloc out = {0}, in = {0}; int r; la = h_unhex(tok[1], a); stralloc_copyb(&in, (char *) a, la); r = doit(&out, &in); fprintf(h_res, "%d %u ", r, out.len); h_puthex((unsigned char *) out.s, out.len); fputc('\n', h_res); }
+    else if (IS("safeput")) { la = h_unhex(tok[1], a); a[la] = 0; h_qqlen = 0; safeput((struct qmail *) 0, (char *) a); h_puthex(h_qq, h_qqlen); fputc('\n', h_res); }
+    else if (IS("fmtqfn")) { unsigned int r0, r; la = h_unhex(tok[1], a); a[la] = 0; memset(b, 0x2e, 300);
+      r0 = fmtqfn((char *) 0, (char *) a, strtoul(tok[2], 0, 10), atoi(tok[3])); r = fmtqfn((char *) b, (char *) a, strtoul(tok[2], 0, 10), atoi(tok[3]));
+      fprintf(h_res, "%u %u %d ", r0, r, auto_split); h_puthex(b, r); fputc('\n', h_res); }
     else fputs("?\n", h_res);
     fflush(h_res);
   }
